@@ -123,7 +123,7 @@ def rule_e9_setexpr(ctx):
                    "for all 256 pairs of subsets of a 4-element universe, using the filter polarity extracted from each iterator's next()")
     sem, why = stream_semantics(ctx)
     ev = Eval(sem)
-    subs = subsets(U)
+    subs = subsets(U if ctx.tier != "thorough" else U + (4,))
     for name in ("union", "intersection", "difference", "symmetric_difference", "bitor", "bitand", "bitxor", "sub"):
         bodies = find_set_fn(ctx, name)
         if not bodies:
@@ -168,7 +168,7 @@ def rule_e9_bool(ctx):
                    "is extracted symbolically and evaluated for all pairs of subsets of a 4-element universe (maps: all pairs of maps over 3 keys x 2 values)")
     sem, _ = stream_semantics(ctx)
     ev = Eval(sem)
-    subs = subsets(U)
+    subs = subsets(U if ctx.tier != "thorough" else U + (4,))
     for name in ("is_subset", "is_superset", "is_disjoint", "eq"):
         bodies = find_set_fn(ctx, name)
         if not bodies:
@@ -206,7 +206,7 @@ def rule_e9_bool(ctx):
            and "self_ty" in b.raw and ctx.facts.types[b.raw["self_ty"]].get("adt", "").endswith("map::HashMap")]
     if not meq:
         R.anchor("fn:HashMap::eq", "PartialEq for HashMap not found")
-    keys = (0, 1, 2)
+    keys = (0, 1, 2) if ctx.tier != "thorough" else (0, 1, 2, 3)
     maps = []
     for present in itertools.product([None, 0, 1], repeat=len(keys)):
         maps.append({k: v for k, v in zip(keys, present) if v is not None})
